@@ -150,7 +150,7 @@ def run(ctx):
                        "close, non-blocking receives on every output, final drain) replayed under testing/synctest; non-trivial = at least one "
                        "completed send and one received value or a closed output observed; distinct by script text")
     ctx.assumptions += ls.ASSUME
-    ls.regen_stages(ctx, pipe=True, fork=False)
+    ls.regen_stages(ctx, pipe=True, fork=False, text=True)
     ctx.prove()
     if ctx.thorough():
         ctx.leanchecker()
